@@ -36,34 +36,72 @@ func Use(x *e.E) {
 // arbitrary local annotations: each list empty or one entry (names are opaque)
 func zzAnnotations() annotations.PackageAnnotations {
 	var a annotations.PackageAnnotations
+	// names with exported and unexported spellings: values of unexported types, functions and fields reach importers
+	// through exported aliases, results and variables, so their annotations belong in the fact like any other
+	T := nd.PinStr(nd.Enum("type_name", "T", "hidden"))
+	Use := nd.PinStr(nd.Enum("func_name", "Use", "use"))
+	fld := nd.PinStr(nd.Enum("field_name", "F", "f"))
 	if nd.Bool("has_impl") {
-		a.ImplementsAnnotations = append(a.ImplementsAnnotations, annotations.ImplementsAnnotation{OnType: "T", InterfaceName: "I", PackageNotFound: nd.Bool("impl_notfound"), PackageFullPath: "zzmod/d"})
+		a.ImplementsAnnotations = append(a.ImplementsAnnotations, annotations.ImplementsAnnotation{OnType: T, InterfaceName: "I", PackageNotFound: nd.Bool("impl_notfound"), PackageFullPath: "zzmod/d"})
 	}
 	if nd.Bool("has_ctor") {
-		a.ConstructorAnnotations = append(a.ConstructorAnnotations, annotations.ConstructorAnnotation{OnType: "T", ConstructorNames: []string{"New"}})
+		a.ConstructorAnnotations = append(a.ConstructorAnnotations, annotations.ConstructorAnnotation{OnType: T, ConstructorNames: []string{Use}})
 	}
 	if nd.Bool("has_imm") {
-		a.ImmutableAnnotations = append(a.ImmutableAnnotations, annotations.ImmutableAnnotation{OnType: "T"})
+		a.ImmutableAnnotations = append(a.ImmutableAnnotations, annotations.ImmutableAnnotation{OnType: T})
 	}
 	if nd.Bool("has_test") {
-		a.TestonlyAnnotations = append(a.TestonlyAnnotations, annotations.TestOnlyAnnotation{Kind: annotations.TestOnlyOnFunc, ObjectName: "Use"})
+		a.TestonlyAnnotations = append(a.TestonlyAnnotations, annotations.TestOnlyAnnotation{Kind: annotations.TestOnlyOnFunc, ObjectName: Use})
 	}
 	if nd.Bool("has_mut") {
-		a.MutableAnnotations = append(a.MutableAnnotations, annotations.MutableAnnotation{OnType: "T", FieldName: "f"})
+		a.MutableAnnotations = append(a.MutableAnnotations, annotations.MutableAnnotation{OnType: T, FieldName: fld})
 	}
 	if nd.Bool("has_pkgo") {
-		a.PackageOnlyAnnotations = append(a.PackageOnlyAnnotations, annotations.PackageOnlyAnnotation{Kind: annotations.TestOnlyOnFunc, ObjectName: "Use", AllowedPackages: []string{"zzmod/d"}})
+		a.PackageOnlyAnnotations = append(a.PackageOnlyAnnotations, annotations.PackageOnlyAnnotation{Kind: annotations.TestOnlyOnFunc, ObjectName: Use, AllowedPackages: []string{"zzmod/d"}})
 	}
 	return a
 }
 
 func zzSameAnnotations(x, y *annotations.PackageAnnotations) bool {
-	return len(x.ImplementsAnnotations) == len(y.ImplementsAnnotations) &&
+	if !(len(x.ImplementsAnnotations) == len(y.ImplementsAnnotations) &&
 		len(x.ConstructorAnnotations) == len(y.ConstructorAnnotations) &&
 		len(x.ImmutableAnnotations) == len(y.ImmutableAnnotations) &&
 		len(x.TestonlyAnnotations) == len(y.TestonlyAnnotations) &&
 		len(x.MutableAnnotations) == len(y.MutableAnnotations) &&
-		len(x.PackageOnlyAnnotations) == len(y.PackageOnlyAnnotations)
+		len(x.PackageOnlyAnnotations) == len(y.PackageOnlyAnnotations)) {
+		return false
+	}
+	for i := range x.ImplementsAnnotations {
+		if x.ImplementsAnnotations[i].OnType != y.ImplementsAnnotations[i].OnType {
+			return false
+		}
+	}
+	for i := range x.ConstructorAnnotations {
+		if x.ConstructorAnnotations[i].OnType != y.ConstructorAnnotations[i].OnType || len(x.ConstructorAnnotations[i].ConstructorNames) != len(y.ConstructorAnnotations[i].ConstructorNames) || x.ConstructorAnnotations[i].ConstructorNames[0] != y.ConstructorAnnotations[i].ConstructorNames[0] {
+			return false
+		}
+	}
+	for i := range x.ImmutableAnnotations {
+		if x.ImmutableAnnotations[i].OnType != y.ImmutableAnnotations[i].OnType {
+			return false
+		}
+	}
+	for i := range x.TestonlyAnnotations {
+		if x.TestonlyAnnotations[i].ObjectName != y.TestonlyAnnotations[i].ObjectName || x.TestonlyAnnotations[i].Kind != y.TestonlyAnnotations[i].Kind {
+			return false
+		}
+	}
+	for i := range x.MutableAnnotations {
+		if x.MutableAnnotations[i].OnType != y.MutableAnnotations[i].OnType || x.MutableAnnotations[i].FieldName != y.MutableAnnotations[i].FieldName {
+			return false
+		}
+	}
+	for i := range x.PackageOnlyAnnotations {
+		if x.PackageOnlyAnnotations[i].ObjectName != y.PackageOnlyAnnotations[i].ObjectName || len(x.PackageOnlyAnnotations[i].AllowedPackages) != len(y.PackageOnlyAnnotations[i].AllowedPackages) {
+			return false
+		}
+	}
+	return true
 }
 
 // ZZC06Export: every checker exports the package's annotations as its fact exactly once on every path — whatever the
